@@ -55,3 +55,16 @@ pub fn c10_known_class(class: crate::props::c10::TriggerClass, panic_msg: &str) 
 		None
 	}
 }
+
+/// C11: a key that rcgen saved is refused by one of its own loaders. Only the recorded class is
+/// tolerated (none is recorded unless known_findings.json lists `K-LEGACY-SAVE`): a key loaded from
+/// a SEC1 / PKCS#1 document is saved in that same encoding, which the PKCS#8-only entry points refuse.
+#[cfg(feature = "crypto")]
+pub fn c11_saved_key_refused(saved: &[u8], entry: crate::props::c11::Entry, _err: &rcgen::Error) -> Option<String> {
+	use crate::props::c11::Entry::*;
+	let is_pkcs8 = matches!(pki_types::PrivateKeyDer::try_from(saved.to_vec()), Ok(pki_types::PrivateKeyDer::Pkcs8(_)));
+	if !is_pkcs8 && matches!(entry, TryFromPkcs8Der | Pkcs8DerAlgo | Pkcs8PemAlgo) && listed("K-LEGACY-SAVE").is_some() {
+		return Some("known:K-LEGACY-SAVE".into());
+	}
+	None
+}
